@@ -920,7 +920,7 @@ def component_part(ck) -> dict:
         jobs["impl_" + prop.split()[1]] = dict(cfg=cfg(True, 6, True, False, True, props=[prop]), workers=2)
     for prop in ("INVARIANT AlignedHistory", "PROPERTY RejectedAppendsNothing"):
         jobs["seeded_" + prop.split()[1]] = dict(cfg=cfg(False, 6, True, False, True, props=[prop], seeded=True), workers=2)
-    jobs["seeded_ragged_NoAlias"] = dict(cfg=cfg(False, 6, True, True, True, props=["INVARIANT NoAlias"], seeded_ragged=True), workers=2)
+    jobs["seeded_ragged_NoAlias"] = dict(cfg=cfg(False, 6, True, False, True, props=["INVARIANT NoAlias"], seeded_ragged=True), workers=2)
     ths = [threading.Thread(target=job, args=(n,), kwargs=kw) for n, kw in jobs.items()]
     for t in ths:
         t.start()
